@@ -109,15 +109,24 @@ def run_family(prop, invs, props, tier, seed, focus=None, signature_prefix="fami
     depth = 1 if quick else 2
     # (a second exported level costs about as much again: a sparser sample then; the diagonal
     # schemas - every node shape - are always in it)
-    stride = (27 if then else 9) if quick else (36 if then else 12)
+    stride = (27 if then else 9) if quick else (48 if then else 24)
     phase = seed % stride
     env = {"FAM_STRIDE": stride, "FAM_PHASE": phase}
     # 1. TLC, every schema of the family
     cfg = os.path.join(d, "mc.cfg")
     cfgmachine.write_cfg(cfg, "GFirst", depth, invs, props)
-    res = tlc.run("MC_Config.tla", cfg, workers=16, keep=())
+    mc_env = {}
+    if not quick:
+        # two levels of history on every 4th schema of the two-key family (and the diagonal);
+        # the whole three-key family below at one level
+        with open(cfg) as fp:
+            text = fp.read().replace("INIT Init", "INIT InitSample")
+        with open(cfg, "w") as fp:
+            fp.write(text)
+        mc_env = {"FAM_STRIDE": 4, "FAM_PHASE": seed % 4, "FAM_PARTS": 1, "FAM_PART": 0}
+    res = tlc.run("MC_Config.tla", cfg, workers=16, keep=(), env=mc_env)
     states, transitions = res.distinct, res.generated
-    instance = "MC_Config family MCFamily2 (every two-key root schema over the node shapes) depth %d" % depth
+    instance = "MC_Config family MCFamily2 (%s two-key root schema over the node shapes) depth %d" % ("every" if quick else "every 4th", depth)
     viol = [res] if not res.ok else []
     if not quick:
         cfg3 = os.path.join(d, "mc3.cfg")
